@@ -1,6 +1,6 @@
 (* C04: the hypothesis of the morphism round trip is necessary - a two-iso witness;
    the hypotheses of the full theorems (join_frame, shapeN_nfold, morphism_roundtrip) are satisfiable. *)
-From Coq Require Import List String Bool Arith ZArith.
+From Coq Require Import List String Bool Arith ZArith Lia.
 From Golem Require Import Optics.GenPrelude Optics.Examples Optics.LensFacts Optics.CombFacts Optics.FocusFacts
   Optics.GenShapeFacts.
 From GolemGen Require Import GenHseq GenOptics GenShape.
@@ -27,7 +27,7 @@ Proof.
 Qed.
 
 Ltac in_cases H :=
-  repeat (destruct H as [H|H]; [try discriminate H; try (injection H as H; subst)|]); try contradiction H.
+  repeat (destruct H as [H|H]; [try discriminate H; try (injection H as H); subst|]); try contradiction H.
 
 (* .. and that witness violates nothing but the hypothesis on target foci: every entry has a lawful source optic and a
    focused target optic (the first hypothesis of morphism_roundtrip); the two entries differ and share the target focus *)
@@ -70,6 +70,18 @@ Lemma r_seq_runs : exists w1,
   morphism_forward r_seq w_start = Ok w1 /\ mt w1 = (repeat 2%Z 8 ++ repeat 1%Z 8)%list /\
   morphism_inverse r_seq w1 = Ok w1.
 Proof. eexists. split; [vm_compute; reflexivity|]. split; vm_compute; reflexivity. Qed.
+
+(* morphism_roundtrip applied to it *)
+Lemma r_seq_roundtrip : forall w1 w2, morphism_forward r_seq w_start = Ok w1 -> morphism_inverse r_seq w1 = Ok w2 ->
+  ms w2 = ms w_start /\ mt w2 = mt w1 /\
+  (forall k, 16 <= k -> nth_error (mt w2) k = nth_error (mt w_start) k).
+Proof.
+  intros w1 w2 Hf Hi.
+  destruct (morphism_roundtrip (fun _ => 8) (fun i => footprint (i_ta i)) r_seq r_seq_entries_ok r_seq_targets_ok
+              _ _ _ Hf Hi) as (A & B & _ & _ & _ & _ & F).
+  split; [exact A|]. split; [exact B|]. intros k Hk. apply F.
+  intros r Hr. vm_compute in Hr. in_cases Hr; right; cbn; lia.
+Qed.
 
 (* a shape2 over KAB: the component lenses are focused on disjoint foci, and Put returns *)
 Lemma shape2_hyps_ok : exists lens,
